@@ -396,7 +396,16 @@ pub fn fake_pub(alg: Alg, seed: u8) -> Vec<u8> {
 pub fn rc_load(z: &ZooKey, alg: Alg) -> Result<rcgen::KeyPair, rcgen::Error> {
     let a = rc_alg(alg).ok_or(rcgen::Error::UnsupportedSignatureAlgorithm)?;
     let der = pki_types::PrivateKeyDer::try_from(z.der.clone()).map_err(|_| rcgen::Error::CouldNotParseKeyPair)?;
-    rcgen::KeyPair::from_der_and_sign_algo(&der, a)
+    // This loader only SETS UP signing keys for the sweeps (whether every entry point takes every fixture is C11's loading
+    // matrix, which calls the entry points itself): if the explicit-algorithm door refuses a fixture, the detecting door
+    // may still open, so that a tree with one broken door yields findings instead of a harness that cannot start
+    match rcgen::KeyPair::from_der_and_sign_algo(&der, a) {
+        Ok(k) => Ok(k),
+        Err(e) => match rcgen::KeyPair::try_from(&der) {
+            Ok(k) if k.algorithm() == a => Ok(k),
+            _ => Err(e),
+        },
+    }
 }
 
 /// A real signer through OpenSSL for a zoo key (used to wrap real keys as remote keys).
